@@ -876,3 +876,17 @@ Proof.
   split; [|reflexivity].
   eexists. eexists. eexists. split; [vm_compute; reflexivity|split; vm_compute; reflexivity].
 Qed.
+
+(* ---- instances of one single-instance frame (SingleInstancePredictor._make_labeled_frames_from_generator).  C02's
+   clauses are about keypoints; how many instances carry them: exactly ONE whenever any keypoint is returned, in
+   both variants of the tree (before / after fix 8463f22 of C12's finding F62) *)
+Theorem c02_single_frame_one_instance : forall fixed integral pts k p a,
+  nth_error pts k = Some (Some p, Some a) -> si_frame_instances fixed integral pts = [pts].
+Proof. exact si_frame_one_instance. Qed.
+Print Assumptions c02_single_frame_one_instance.
+
+(* `_def`: a frame whose row is all NaN — no instance after the fix, one all-NaN instance before (either satisfies C02) *)
+Theorem c02_single_frame_no_detection : forall integral pts, forallb (row_is_nan integral) pts = true ->
+  si_frame_instances true integral pts = [] /\ si_frame_instances false integral pts = [pts].
+Proof. exact si_frame_no_detection. Qed.
+Print Assumptions c02_single_frame_no_detection.
